@@ -19,6 +19,7 @@ type Timer struct {
 	fn       func()
 	fires    int
 	idleOnly bool // harness observer timer: fires only when no other transition is enabled
+	armedAtFire int // idleOnly: how many OTHER timers were armed at the quiescent instant it fired
 }
 
 func (t *Timer) stateHash() H {
@@ -77,6 +78,9 @@ func (s *Sched) fire(t *Timer) {
 	}
 	t.active = false
 	t.fires++
+	if t.idleOnly {
+		t.armedAtFire = s.PendingTimers()
+	}
 	t.h = Mix(t.h, 0x72, uint64(t.fires), uint64(s.clock))
 	if t.fn != nil {
 		g := &G{seq: len(s.gs), name: "afterfunc:" + t.name, wake: make(chan struct{})}
@@ -208,12 +212,17 @@ func Note(vals ...uint64) {
 // fire arbitrarily late relative to computation but also arbitrarily early
 // relative to slow goroutines, an observer wants to look at the system once
 // it is quiescent at that time.
-func SleepIdle(d time.Duration) {
+func SleepIdle(d time.Duration) { SleepIdleArmed(d) }
+
+// SleepIdleArmed is SleepIdle and reports how many other timers were armed at the quiescent instant the observer
+// was released (0 = the system can make no further progress by itself: nothing enabled and nothing scheduled).
+func SleepIdleArmed(d time.Duration) int {
 	s := current
 	if s == nil || s.aborting {
-		return
+		return 0
 	}
 	t := s.newTimer(d, nil)
 	t.idleOnly = true
 	Recv(t.C)
+	return t.armedAtFire
 }
